@@ -137,6 +137,23 @@ lean_arm!(c05_lean_root_def_no_import, {
     available_lean(w)
 });
 
+/// @harness id=c05_lean_plugin_over_third_party props=C05,C18 tier=quick unwind=21 mem=10 cap=1500
+/// the site-packages module V (registered first, and itself an entry-point plugin file) and the workspace plugin P both
+/// define f; no conftest does: the per-file view of U must offer P's f (workspace plugin before third-party).
+lean_arm!(c05_lean_plugin_over_third_party, {
+    let mut w = World::new(&[V, P, U]);
+    w.def(V, "f", 4); w.def(P, "f", 6);
+    w.v_is_plugin = true;
+    available_lean(w)
+});
+/// @harness id=c05_lean_plugin_over_plain_third_party props=C05,C18 tier=thorough unwind=21 mem=10 cap=1500
+/// the same with V a plain site-packages module (not an entry point).
+lean_arm!(c05_lean_plugin_over_plain_third_party, {
+    let mut w = World::new(&[V, P, U]);
+    w.def(V, "f", 4); w.def(P, "f", 6);
+    available_lean(w)
+});
+
 // ------------------------------------------------------------------------------------------------ C04
 /// references(D) contains usage u  <=>  go-to-definition on u lands on D; an unresolved usage is in no set;
 /// no usage twice. Go-to-definition on a recorded usage = the call sequence `find_fixture_definition` performs once
@@ -283,6 +300,26 @@ pos_arm!(c04_refs_local_sibling_first, {
     refs_of(w, 1)
 });
 
+/// @harness id=c04_refs_chain_middle props=C04,C02 tier=thorough unwind=24 mem=10 cap=1500 gates=worlds
+/// three-link override chain C0 f() <- C1 f(f) <- U f(f), a test in U below its definition: references of the MIDDLE
+/// link are exactly U's own parameter (the test's parameter belongs to U's f, C1's parameter to C0's f).
+pos_arm!(c04_refs_chain_middle, {
+    let mut w = World::new(&[C0, C1, U]);
+    w.def(C0, "f", 4); let i = w.def(C1, "f", 6); w.defs[i].deps = vec!["f"];
+    let j = w.def(U, "f", 8); w.defs[j].deps = vec!["f"];
+    w.test(U, 12, &["f"]);
+    refs_of(w, 1)
+});
+/// @harness id=c04_refs_chain_outermost props=C04,C02 tier=thorough unwind=24 mem=10 cap=1500 gates=worlds
+/// the same chain, references of the OUTERMOST definition: exactly C1's parameter.
+pos_arm!(c04_refs_chain_outermost, {
+    let mut w = World::new(&[C0, C1, U]);
+    w.def(C0, "f", 4); let i = w.def(C1, "f", 6); w.defs[i].deps = vec!["f"];
+    let j = w.def(U, "f", 8); w.defs[j].deps = vec!["f"];
+    w.test(U, 12, &["f"]);
+    refs_of(w, 0)
+});
+
 // ------------------------------------------------------------------------------------------------ C20
 /// `get_unused_fixtures` lists D  <=>  D is not third-party, not autouse, and no usage resolves to it
 /// (find_references_for_definition(D) is empty); the list is sorted.
@@ -363,6 +400,16 @@ cli_arm!(c20_lean_shadowed_parent_unused, {
     let mut w = World::new(&[C0, U]);
     w.def(C0, "f", 4); w.def(U, "f", 6);
     w.test(U, 9, &["f"]);
+    unused_lean(w)
+});
+/// @harness id=c20_lean_autouse_and_third_party props=C20 tier=quick unwind=17 mem=10 cap=1500
+/// nothing is requested anywhere: the autouse fixture f in C0 and the site-packages fixture g in V are NOT reported, the
+/// plain project fixture h in C0 is — once.
+cli_arm!(c20_lean_autouse_and_third_party, {
+    let mut w = World::new(&[C0, V, U]);
+    let i = w.def(C0, "f", 4); w.defs[i].autouse = true;
+    w.def(C0, "h", 6);
+    w.def(V, "g", 8);
     unused_lean(w)
 });
 /// @harness id=c20_unused_basic props=C20,C04 tier=thorough unwind=17 mem=14 cap=2400 unwindset=find_inner:3
